@@ -31,7 +31,9 @@ type kase struct {
 	kind string // "rt" (payload round trip), "dec" (decode arbitrary bytes), "fn" (function-level ops)
 	name string
 	// rt
-	data []byte
+	data  []byte
+	pre   []byte // rt: when non-empty, Encode and Decode are also called with this non-empty dst to append to
+	light bool   // rt: Go round-trip oracle only (no histogram of the chunk structure, no model, no external decoder)
 	// dec
 	format lz.FileFormat
 	enc    []byte
@@ -160,8 +162,12 @@ func (w *worker) eval(k *kase) *result {
 
 func (w *worker) evalRoundTrip(k *kase, res *result) {
 	src := k.data
-	res.count("rt:" + k.name)
-	res.count(fmt.Sprintf("rt-size:%s", sizeClass(len(src))))
+	if k.light {
+		res.count("rt-light(go round trip only):" + k.name)
+	} else {
+		res.count("rt:" + k.name)
+		res.count(fmt.Sprintf("rt-size:%s", sizeClass(len(src))))
+	}
 	for _, f := range []lz.FileFormat{lz.FileFormatLZMA, lz.FileFormatXz} {
 		fn := fmtName(f)
 		encOp := "enc " + fn + " " + hlib.Hex(src)
@@ -192,9 +198,84 @@ func (w *worker) evalRoundTrip(k *kase, res *result) {
 			res.fail("roundtrip:"+fn+":leftover", fmt.Sprintf("Decode(Encode(x)) left %d bytes over", d.rest), clip(encOp))
 		}
 		// structure facts (for the histogram, and the 2^16 bound of the chunk header)
-		if f == lz.FileFormatXz {
+		if f == lz.FileFormatXz && !k.light {
 			xzStructure(src, enc, res, encOp)
+			if u, ok := xzIndexFields(src, enc); ok {
+				countUvClasses(res, "unpadded-size", u)
+				countUvClasses(res, "uncompressed-size", uint64(len(src)))
+			}
 		}
+		if len(k.pre) > 0 {
+			w.evalAppend(k, f, enc, res)
+		}
+	}
+	if !k.light {
+		// how the flush meets the pending run: per LZMA stream (whole payload) and per XZ chunk
+		res.count("lzma:" + flushClass(endState(src)))
+		for off := 0; off < len(src); off += 0x10000 {
+			end := off + 0x10000
+			if end > len(src) {
+				end = len(src)
+			}
+			if off > 0 || end < len(src) {
+				res.count("xz-chunk:" + flushClass(endState(src[off:end])))
+			}
+		}
+	}
+}
+
+// evalAppend: Encode and Decode with a non-empty dst ("appending the encoding / the decoding to dst").
+// Oracle: Encode(pre, x) starts with pre, and Decode(pre, Encode(pre, x)[len(pre):]) = (pre ++ x, nothing left, nil).
+func (w *worker) evalAppend(k *kase, f lz.FileFormat, encNil []byte, res *result) {
+	fn := fmtName(f)
+	src, pre := k.data, k.pre
+	op := "encd " + fn + " " + hlib.Hex(pre) + " " + hlib.Hex(src)
+	var enc []byte
+	out := hlib.Guard(func() string {
+		// spare capacity behind pre must not matter either
+		d := append(make([]byte, 0, len(pre)+5), pre...)
+		e, err := f.Encode(d, src)
+		if err != nil {
+			return "err " + lz.VerifErrClass(err)
+		}
+		enc = e
+		return "ok " + hlib.Hex(e)
+	})
+	if k.model {
+		res.ops = append(res.ops, opLine{op, out})
+	}
+	res.count("rt-append:" + fn)
+	if !strings.HasPrefix(out, "ok ") {
+		res.fail("encode-append:"+fn+":"+strings.Fields(out)[0], "Encode(dst, x) with a non-empty dst failed or panicked: "+out, clip(op))
+		return
+	}
+	if len(enc) < len(pre) || !bytes.Equal(enc[:len(pre)], pre) {
+		res.fail("encode-append:"+fn+":prefix", "Encode(dst, x) does not start with dst", clip(op))
+		return
+	}
+	body := enc[len(pre):]
+	dop := "decd " + fn + " " + hlib.Hex(pre) + " " + hlib.Hex(body)
+	var o []byte
+	var rest int
+	var errc string
+	dout := hlib.Guard(func() string {
+		d := append(make([]byte, 0, len(pre)+3), pre...)
+		oo, rr, err := f.Decode(d, body)
+		o, rest, errc = oo, len(rr), lz.VerifErrClass(err)
+		return fmt.Sprintf("ok %s rest=%d err=%s", hlib.Hex(oo), len(rr), errc)
+	})
+	if k.model {
+		res.ops = append(res.ops, opLine{dop, dout})
+	}
+	switch {
+	case dout == "panic":
+		res.fail("roundtrip-append:"+fn+":panic", "Decode(dst, Encode(dst, x)[len(dst):]) panicked", clip(op))
+	case errc != "ok":
+		res.fail("roundtrip-append:"+fn+":error", "Decode(dst, Encode(dst, x)[len(dst):]) returned error "+errc, clip(op))
+	case !bytes.Equal(o, append(append([]byte(nil), pre...), src...)):
+		res.fail("roundtrip-append:"+fn+":data", fmt.Sprintf("Decode(dst, Encode(dst, x)[len(dst):]) != dst ++ x (len %d vs %d)", len(o), len(pre)+len(src)), clip(op))
+	case rest != 0:
+		res.fail("roundtrip-append:"+fn+":leftover", fmt.Sprintf("Decode(dst, Encode(dst, x)[len(dst):]) left %d bytes over", rest), clip(op))
 	}
 }
 
@@ -422,6 +503,7 @@ func (w *worker) evalDecode(k *kase, res *result) {
 func main() {
 	r := hlib.Start("C17")
 	if r.IsGen() {
+		genLean(r)
 		return
 	}
 	t0 := time.Now()
